@@ -285,7 +285,14 @@ func runCheck(repo, verif, prop, tier string, seed int, updateExpected, verbose 
 	var stretchList []string
 	seenNames := map[string]bool{}
 	var vacuous []string
+	slowAbove := 0.0
+	if v := os.Getenv("GVC_SLOW"); v != "" { // development aid: list the obligations slower than this many seconds
+		fmt.Sscanf(v, "%g", &slowAbove)
+	}
 	for _, r := range results {
+		if slowAbove > 0 && r.Seconds > slowAbove && r.Class != "canary" && r.Class != "cover" {
+			fmt.Printf("SLOW %6.1fs %-10s %s\n", r.Seconds, r.Solver, r.Name)
+		}
 		seenNames[stableName(r.Name)] = true
 		solverSecs += r.Seconds
 		switch r.Class {
